@@ -21,6 +21,9 @@ func runC11(w *World, r *Report) {
 	// deletion (also the one that cleans up a failed create) removes record and checkpoints together only for a task
 	// it finds in memory
 	defer r.importRules(runC19, "C11-", map[string]bool{"C19-R9": true})
+	// stopping a collection's reader finds the handler through the mapping key (a paused task has no active readers)
+	defer r.importRules(runC02, "C11-", map[string]bool{"C02-R8": true})
+	defer c11ReadersAfterState(w, r)
 	r.Rule("C11-R1", "no busy wait on a close-only channel", "in every blocking select inside a loop, a case that receives from a struct{} channel must leave the loop", 8)
 	r.Rule("C11-R2", "reference counting is paired", "Inc next to taskQuitFuncs.Insert; Dec dominated by GetAndRemove==ok; entityQuitFunc + delete(entity) dominated by refCnt.Load()==0 under the replicateEntityMap lock; no error return after Inc in startInternal", 6)
 	r.Rule("C11-R3", "memory follows the store", "every store to TaskInfo.State of a task held in cdcTasks is dominated by the success outcome of the persisted state update", 2)
@@ -745,4 +748,57 @@ func sname2(w *World, v ssa.Value) string {
 		}
 	}
 	return w.accessPath(v)
+}
+
+// c11ReadersAfterState (C11-R10): the readers of a task are started only when nothing can fail any more.
+func c11ReadersAfterState(w *World, r *Report) {
+	r.Rule("C11-R10", "readers start after the state is settled", "(*MetaCDC).startInternal: no error return is reachable after a StartRead call, and the store of TaskInfo.State (Running) precedes both: a task whose resume failed stays Paused with no reader running, and a reader never sees its own task as not running", 2)
+	fn := w.Func(pkgServer, "MetaCDC", "startInternal")
+	if fn == nil {
+		r.Undecided("C11-R10", "(*MetaCDC).startInternal", 0, "anchor not found")
+		return
+	}
+	var stateStores []*ssa.Store
+	eachInstr(fn, func(in ssa.Instruction) {
+		if st, ok := in.(*ssa.Store); ok {
+			if fa, isFA := st.Addr.(*ssa.FieldAddr); isFA && fieldName(fa.X.Type(), fa.Field) == "State" && typeIs(fa.X.Type(), pkgServer+"/model/meta", "TaskInfo") {
+				stateStores = append(stateStores, st)
+			}
+		}
+	})
+	n := 0
+	eachInstr(fn, func(in ssa.Instruction) {
+		c, ok := in.(*ssa.Call)
+		if !ok || callSym(c.Common()).name != "StartRead" {
+			return
+		}
+		n++
+		cons := fmt.Sprintf("(*MetaCDC).startInternal | StartRead#%d", n)
+		var bad token.Pos
+		reach := blockReach(c.Block(), nil)
+		reach[c.Block()] = true
+		for b := range reach {
+			ret, isR := b.Instrs[len(b.Instrs)-1].(*ssa.Return)
+			if !isR || len(ret.Results) == 0 {
+				continue
+			}
+			if b == c.Block() && instrIndex(ret) < instrIndex(c) {
+				continue
+			}
+			if last := returnedValue(ret, len(ret.Results)-1); last != nil && !isNilConst(last) {
+				bad = ret.Pos()
+			}
+		}
+		r.Check(!bad.IsValid(), "C11-R10", cons+" | nothing fails afterwards", c.Pos(), "no error return after the reader is started", "an error return is reachable after this reader was started: when the state update fails the task stays Paused in the store and in memory while its readers run (Pause answers 'already paused', only Delete stops them)")
+		after := false
+		for _, st := range stateStores {
+			if instrDominates(st, c) {
+				after = true
+			}
+		}
+		r.Check(after, "C11-R10", cons+" | after State = Running", c.Pos(), "the in-memory state is Running before the reader starts", "the reader is started before the task is marked Running: the first pack it delivers finds its own task not running and the reader quits for good, while the API reports Running")
+	})
+	if n == 0 {
+		r.Fail("C11-R10", "(*MetaCDC).startInternal | StartRead", fn.Pos(), "no reader is started in startInternal")
+	}
 }
